@@ -136,3 +136,119 @@ def run(ctx):
         ctx.ob('6a chain-links-carry-no-order %s' % b.path, 'K3-guard', b.path, 'no ordering comparison between a next-part link and the position of the slot it was read from', not bad, 'ordering test at %s' % bad)
     ctx.ob('6a0 chain-walkers', 'anchor', 'table::ValueTable', 'the functions that follow next-part links were found (reader, release, in-place rewrite)', n6 >= 3, 'found %d' % n6)
 
+    # 7. "overwriting or removing a value releases the storage of the old one so that it can be reused": the release protocol as
+    # path / provenance facts (which slot numbers flow where is not decided).
+    VT = 'table::ValueTable::'
+    # 7a a value that moves to another size class: the old entry is released before the new one is inserted
+    if we:
+        ins = lib.sites_reaching(we, ['table::ValueTable::write_insert_plan'])
+        rel = lib.sites_reaching(we, ['table::ValueTable::write_remove_plan', 'table::ValueTable::write_dec_ref'])
+        ctx.ob('7a0 move-anchor', 'anchor', we.path, 'write_existing_value_plan has an insert-elsewhere site and release sites', len(ins) >= 1 and len(rel) >= 1, 'insert %s release %s' % (ins, rel))
+        for n, s_ in enumerate(sorted(ins)):
+            ok = any(we.dominates(r, s_) for r in rel)
+            ctx.ob('7a old-entry-released-before-reinsert #%d' % n, 'K2-order', we.path,
+                   'the insert of a replaced value into another size class is dominated by the release (write_remove_plan) of the entry it had: otherwise the old entry is never freed', ok, '', we.loc(s_))
+    # 7b write_remove_plan releases on every success path; clear_chain frees every part it walks over
+    wr = ctx.body(VT + 'write_remove_plan')
+    if wr:
+        t = lib.sites_reaching(wr, [VT + 'clear_chain', VT + 'clear_slot'])
+        lib.must_pass(ctx, '7b remove-plan-frees', wr, t, 'every success path of write_remove_plan frees the entry (clear_slot) or its whole chain (clear_chain)')
+    cc = ctx.body(VT + 'clear_chain')
+    if cc:
+        reads = lib.sites_reaching(cc, [VT + 'read_next_part'])
+        frees = lib.sites_reaching(cc, [VT + 'clear_slot'])
+        ctx.ob('7c0 clear-chain-anchor', 'anchor', cc.path, 'clear_chain reads links and frees slots', len(reads) >= 1 and len(frees) >= 1, 'reads %s frees %s' % (reads, frees))
+        if reads and frees:
+            # after a link was read successfully, neither the next read nor the return is reached without a clear_slot
+            bad = []
+            for r in reads:
+                errs = set(lib.result_err_targets(cc, r))
+                succ0 = [x for x in cc.succ(r) if x in cc.normal_blocks()]
+                seen = set(); st = list(succ0)
+                while st:
+                    x = st.pop()
+                    if x in seen or x in frees or x in errs:
+                        continue
+                    seen.add(x)
+                    if x in reads or (x in cc.return_blocks() and not _err_return(cc, x, errs)):
+                        bad.append((r, x)); continue
+                    st.extend(y for y in cc.succ(x) if y in cc.normal_blocks())
+            ctx.ob('7c every-walked-part-freed', 'K1-must-pass', cc.path,
+                   'between reading the link of a part and either following it or returning Ok, the part is freed (clear_slot): a part skipped here is lost for reuse', not bad, 'free-less paths (from read, to) %s' % bad)
+    # 7d the in-place chain writer frees what is left of the old chain when the new value is shorter
+    if oc:
+        ccs = lib.sites_reaching(oc, [VT + 'clear_chain'])
+        ctx.ob('7d0 trim-anchor', 'anchor', oc.path, 'overwrite_chain trims through clear_chain', len(ccs) >= 1, str(ccs))
+        if ccs:
+            # the switch the trim depends on tests the link of the part after the last one written against 0 (no further part)
+            zero_edges = set(); found = False
+            for c in ccs:
+                for (sw, yes, no) in oc.control_deps(c):
+                    pol = lib.eq_polarity(oc, sw)
+                    if not pol:
+                        continue
+                    eq_t, ne_t, ops = pol
+                    cs = [lib.const_of(oc, o) for o in ops]
+                    if 0 in cs and ne_t in yes:
+                        zero_edges.add((sw, eq_t)); found = True
+            left = lib.ok_return_unreachable_avoiding(oc, ccs, removed_edges=frozenset(zero_edges))
+            ctx.ob('7d shorter-value-frees-the-tail', 'K1-must-pass', oc.path,
+                   'overwrite_chain returns Ok only through clear_chain of the remaining old parts, or over the edge where the next link is 0 (no old part left)', found and left is None,
+                   'zero-link edges %s; path avoiding the trim: %s' % (sorted(zero_edges), lib.short_path(oc, left) if left else None))
+    # 7e freeing links the slot into the free list: tombstone + link to the previous head, logged, and the slot becomes the head
+    cs_ = ctx.body(VT + 'clear_slot')
+    if cs_:
+        tomb = lib.sites_reaching(cs_, ['re:^table::Entry::<.*>::write_tombstone$'])
+        nxt = lib.sites_reaching(cs_, ['re:^table::Entry::<.*>::write_next$'])
+        logw = lib.sites_reaching(cs_, ['re:^log::LogWriter::<.*>::insert_value$'])
+        st = [bi for bi, t in cs_.calls() if call_matches(t, lib.ATOMIC_STORE) and '.ValueTable.last_removed' in lib.receiver_fields(cs_, t, 0)]
+        have = all(len(x) >= 1 for x in (tomb, nxt, logw)) and len(st) == 1
+        ctx.ob('7e0 free-anchor', 'anchor', cs_.path, 'clear_slot writes a tombstone, a link, logs the entry and stores last_removed', have, 'tombstone %s link %s log %s store %s' % (tomb, nxt, logw, st))
+        if have:
+            lib.must_pass_chain(ctx, '7e free-sequence', cs_, [('tombstone', tomb), ('link', nxt), ('logged', logw), ('head-store', st)], 'every success path of clear_slot: tombstone marker, link, entry logged, slot becomes the free-list head')
+            ok = True
+            for nx in nxt:
+                # (the link is argument 1 of write_next; when the marker is written by a helper, one of the helper's arguments)
+                sls = [backward_slice(cs_, [op_place(a)]) for a in cs_.term(nx)['a'][1:] if op_place(a) is not None]
+                ok = ok and any('.ValueTable.last_removed' in sl.fields and any(re.search(r'::load$', c) for c in sl.calls) for sl in sls)
+            ctx.ob('7e1 freed-slot-links-to-previous-head', 'K9-provenance', cs_.path, 'the link written into the freed slot is the free-list head loaded from last_removed (the list is not cut)', ok, '', cs_.loc(nxt[0]))
+            sa = cs_.term(st[0])['a']
+            r = lib.root_local(cs_, sa[1]) if len(sa) > 1 else None
+            la = cs_.term(logw[0])['a']
+            r2s = [lib.root_local(cs_, a) for a in la[1:]]
+            r2 = r if r in r2s else None
+            ok = r is not None and 1 <= r <= cs_.argc and r == r2
+            ctx.ob('7e2 freed-slot-becomes-head', 'K9-provenance', cs_.path, 'the slot number stored into last_removed and the slot the tombstone is logged for are the same parameter (the slot that was freed)', ok, 'store arg root %s, log arg root %s' % (r, r2), cs_.loc(st[0]))
+            # the load of the previous head precedes the store of the new one
+            ld = [bi for bi, t in cs_.calls() if call_matches(t, lib.ATOMIC_LOAD) and '.ValueTable.last_removed' in lib.receiver_fields(cs_, t, 0)]
+            ctx.ob('7e3 head-loaded-before-replaced', 'K2-order', cs_.path, 'last_removed is loaded before it is overwritten', bool(ld) and all(not cs_.reaches(st[0]).__contains__(l) or cs_.dominates(l, st[0]) for l in ld) and any(cs_.dominates(l, st[0]) for l in ld), 'loads %s store %s' % (ld, st))
+    # 7f reuse: next_free hands out the free-list head and advances the head to the link stored in it
+    nf = ctx.body(VT + 'next_free')
+    if nf:
+        rd = lib.sites_reaching(nf, [VT + 'read_next_free'])
+        st = [bi for bi, t in nf.calls() if call_matches(t, lib.ATOMIC_STORE) and '.ValueTable.last_removed' in lib.receiver_fields(nf, t, 0)]
+        ctx.ob('7f0 reuse-anchor', 'anchor', nf.path, 'next_free reads the link of the head slot and stores last_removed', len(rd) >= 1 and len(st) >= 1, 'read %s store %s' % (rd, st))
+        for n, s_ in enumerate(st):
+            sa = nf.term(s_)['a']
+            sl = backward_slice(nf, [op_place(sa[1])]) if len(sa) > 1 and op_place(sa[1]) else None
+            ok = bool(sl) and any(c.endswith('ValueTable::read_next_free') for c in sl.calls) and any(nf.dominates(r_, s_) for r_ in rd)
+            ctx.ob('7f head-advances-to-stored-link #%d' % n, 'K9-provenance', nf.path, 'the new free-list head is the link read from the slot being handed out (read_next_free), so the rest of the list stays reachable', ok, '', nf.loc(s_))
+        # the head is consulted before the table grows: the store to `filled` is on the head == 0 edge
+        stf = [bi for bi, t in nf.calls() if call_matches(t, lib.ATOMIC_STORE) and '.ValueTable.filled' in lib.receiver_fields(nf, t, 0)]
+        for n, s_ in enumerate(stf):
+            ok = False
+            for (sw, yes, no) in nf.control_deps(s_):
+                pol = lib.eq_polarity(nf, sw)
+                if pol:
+                    eq_t, ne_t, ops = pol
+                    sls = [backward_slice(nf, [op_place(o)]) for o in ops if op_place(o)]
+                    if 0 in [lib.const_of(nf, o) for o in ops] and eq_t in yes and any('.ValueTable.last_removed' in x.fields for x in sls):
+                        ok = True
+            ctx.ob('7f2 table-grows-only-when-free-list-empty #%d' % n, 'K3-guard', nf.path, 'next_free extends the table (stores filled) only on the edge where the free-list head is 0: freed slots are reused first', ok, '', nf.loc(s_))
+    # 7g the in-memory mirror of the free list (multitree tables) moves in step with the head
+    shared.free_list_mirror_in_step(ctx, '7g')
+
+
+def _err_return(body, bi, errs):
+    return False
+
